@@ -164,7 +164,7 @@ def pin_environment_and_reexec(argv=None):
     env["XDIS_VERIF_ASLR_OFF"] = "1" if _disable_aslr() else "0"
     pp = [REPO_DIR, VERIF_DIR]
     env["PYTHONPATH"] = os.pathsep.join(pp)
-    args = [sys.executable, "-B", "-s"] + (argv if argv is not None else sys.argv)
+    args = [sys.executable, "-B", "-s"] + (["-O"] if sys.flags.optimize else []) + (argv if argv is not None else sys.argv)
     sys.stdout.flush()
     sys.stderr.flush()
     os.execve(sys.executable, args, env)
